@@ -168,7 +168,8 @@ type World struct {
 	dead     atomic.Bool // teardown: transport fails instantly
 	free     bool        // free-running mode: nothing parks, hooks off (C18)
 	noActors bool
-	setup    bool // setup phase: PG gate auto-executes
+	ending   atomic.Bool // the run is over: runners are being stopped
+	setup    bool        // setup phase: PG gate auto-executes
 
 	mu         sync.Mutex
 	commits    []*fakepg.CommitInfo
@@ -369,7 +370,13 @@ func (w *World) gate(ev *fakepg.Event) (fakepg.Verdict, string) {
 		w.stMu.Unlock()
 		return d.v, d.code
 	}
-	v, _ := w.sched.Park(nil, "pg", "pg "+ev.Owner+" "+ev.Class, ev)
+	class := ev.Class
+	if strings.HasPrefix(class, "set application_name") {
+		// loadTasks builds the tasks in map-iteration order; which task's
+		// name is set first must not show in keys or in the event log
+		class = "set application_name"
+	}
+	v, _ := w.sched.Park(nil, "pg", "pg "+ev.Owner+" "+class, ev)
 	d := v.(pgDecision)
 	return d.v, d.code
 }
@@ -416,6 +423,24 @@ func installHooks() {
 				return
 			}
 			switch name {
+			case "config.integrations.order":
+				// loadTasks runs inside one goroutine tree released by the
+				// scheduler (or during setup): the draws are in the causal
+				// chain of that event. Burst runs keep the canonical order.
+				n, _ := kv[0].(int)
+				swap, _ := kv[1].(func(i, j int))
+				if swap == nil || w.plan.Burst || !w.plan.Checks["permute_integrations"] {
+					return
+				}
+				w.stMu.Lock()
+				for i := n - 1; i > 0; i-- {
+					j := w.st.Draw(i+1, "ig-order")
+					// 0 = keep the canonical position
+					if j != 0 {
+						swap(i, i-j)
+					}
+				}
+				w.stMu.Unlock()
 			case "cache.segment":
 				w.sched.SegmentOf(kv[0], kv[1])
 			default:
